@@ -2,7 +2,7 @@
     writes is the RFC form of the request, and crosses to the backend
     unchanged), the RFC reader on lexical variants, and the main theorems. *)
 From Coq Require Import Permutation.
-From GW Require Import Base CalTime CalTimeProofs CalXml CalWire CalWireLex CalWireServer.
+From GW Require Import Base CalTime CalTimeProofs CalXml CalWire CalWireLex CalWireServer CalWireReader CalWireVariant.
 
 Local Opaque fmt_utc parse_utc u_instant.
 
@@ -220,8 +220,78 @@ Proof.
   rewrite Hi. rewrite Hu. exact Hd.
 Qed.
 
+Lemma client_prop_read c :
+  valid_cr (norm_cr c) = true -> r_dprop (marshal_prop (encode_calendar_req c)) = Some (norm_cr c).
+Proof.
+  intros Hv. unfold encode_calendar_req. rewrite (marshal_caldata _ Hv).
+  pose proof (r_caldata_lex _ _ Hv (lv_caldata _)) as Hr.
+  unfold marshal_prop, r_dprop. rewrite name_eqb_refl.
+  unfold w_caldata in *. cbn [content_ok forallb andb elems filter is_elem is_caldata].
+  rewrite name_eqb_refl.
+  change (name_eqb (dn "getlastmodified") (cn "calendar-data")) with false.
+  change (name_eqb (dn "getetag") (cn "calendar-data")) with false. exact Hr.
+Qed.
+
 Lemma Forall2_refl_map {A} (f : A -> xtree) l : (forall x, lexvar (f x) (f x)) -> Forall2 lexvar (map f l) (map f l).
 Proof. intros H. induction l; cbn; constructor; auto. Qed.
+
+(** * Normalisation only touches zone offsets *)
+Definition utc_i (i : instant) : bool := Z.eqb (snd i) 0.
+Definition utc_pf (p : prop_filter) : bool := utc_i (pf_start p) && utc_i (pf_end p).
+Fixpoint utc_cf (f : comp_filter) : bool :=
+  match f with
+  | CompFilter _ _ s e props comps => utc_i s && utc_i e && forallb utc_pf props && forallb utc_cf comps
+  end.
+Definition utc_cr (c : comp_request) : bool :=
+  match cr_expand c with Some (s, e) => utc_i s && utc_i e | None => true end.
+Definition utc_request (r : request) : bool :=
+  match r with
+  | RQuery q => utc_cr (q_cr q) && utc_cf (q_cf q)
+  | RMultiget m => utc_cr (mg_cr m)
+  end.
+
+Lemma norm_i_utc i : utc_i i = true -> norm_i i = i.
+Proof. unfold utc_i, norm_i. intros H. apply Z.eqb_eq in H. destruct i. cbn in *. now subst. Qed.
+
+Lemma norm_i_second i : fst (norm_i i) = fst i /\ snd (norm_i i) = 0%Z.
+Proof. split; reflexivity. Qed.
+
+Lemma norm_pf_utc p : utc_pf p = true -> norm_pf p = p.
+Proof.
+  unfold utc_pf, norm_pf. intros H. apply andb_true_iff in H. destruct H as [Hs He].
+  rewrite (norm_i_utc _ Hs), (norm_i_utc _ He). now destruct p.
+Qed.
+
+Lemma map_id_on {A} (f : A -> A) (v : A -> bool) l :
+  (forall x, In x l -> v x = true -> f x = x) -> forallb v l = true -> map f l = l.
+Proof.
+  induction l as [|x r IH]; cbn; [reflexivity |]. intros H Hv. apply andb_true_iff in Hv. destruct Hv as [Hx Hr].
+  rewrite (H x (or_introl eq_refl) Hx). f_equal. apply IH; [|assumption]. intros y Hy. apply H. now right.
+Qed.
+
+Lemma norm_cf_utc f : utc_cf f = true -> norm_cf f = f.
+Proof.
+  induction f as [nm ind s e props comps IH] using comp_filter_ind2. cbn [utc_cf norm_cf]. intros H.
+  apply andb_true_iff in H. destruct H as [H Hcs]. apply andb_true_iff in H. destruct H as [H Hps].
+  apply andb_true_iff in H. destruct H as [Hs He].
+  rewrite (norm_i_utc _ Hs), (norm_i_utc _ He).
+  rewrite (map_id_on norm_pf utc_pf props) by (auto using norm_pf_utc).
+  rewrite (map_id_on norm_cf utc_cf comps); [reflexivity | | assumption].
+  rewrite Forall_forall in IH. auto.
+Qed.
+
+Lemma norm_cr_utc c : utc_cr c = true -> norm_cr c = c.
+Proof.
+  destruct c as [nm ap ps ac cs [[s e]|]]; cbn; [|reflexivity]. intros H.
+  apply andb_true_iff in H. destruct H as [Hs He]. now rewrite (norm_i_utc _ Hs), (norm_i_utc _ He).
+Qed.
+
+Theorem normalise_utc_id r : utc_request r = true -> normalise r = r.
+Proof.
+  destruct r as [q|m]; cbn [utc_request normalise]; intros H.
+  - apply andb_true_iff in H. destruct H as [Hc Hf]. rewrite (norm_cr_utc _ Hc), (norm_cf_utc _ Hf). now destruct q.
+  - rewrite (norm_cr_utc _ H). now destruct m.
+Qed.
 
 Section Main.
 Variable href_fmt : string -> string.
@@ -262,6 +332,73 @@ Proof.
     rewrite (fold_hrefs href_fmt href_parse _ Hps _ _ (Forall2_refl_map _ _ (lv_href href_fmt))).
     cbn [wm_prop wm_hrefs zero_wm app].
     unfold handle_multiget. cbn [wm_prop wm_hrefs]. rewrite Hd. reflexivity.
+Qed.
+
+(** The reference is coherent: the RFC reader inverts the RFC writer. *)
+Theorem rfc_codec r :
+  valid href_fmt href_parse r = true -> rfc_read href_parse (rfc_write href_fmt r) = Some r.
+Proof. intros Hv. apply (rfc_read_lex href_fmt href_parse _ _ Hv). apply lv_rfc_write. Qed.
+
+(** What [caldav.Client] writes is an RFC 4791 document which the independent
+    reader decodes to the caller's request (instants in UTC). *)
+Theorem client_conformant path r :
+  expressible href_fmt href_parse r = true ->
+  rfc_read href_parse (client_body href_fmt path r) = Some (normalise r).
+Proof.
+  unfold expressible. intros Hv. destruct r as [q|m]; cbn [normalise valid client_body] in *.
+  - apply andb_true_iff in Hv. destruct Hv as [Hcr Hcf]. cbn [q_cr q_cf] in *.
+    unfold marshal_calendar_query, query_calendar. cbn [wq_prop wq_allprop wq_propname wq_filter opt_list flag_elem app].
+    rewrite (marshal_cf _ Hcf).
+    unfold rfc_read. cbn [content_ok forallb negb elems filter is_elem marshal_prop].
+    rewrite name_eqb_refl.
+    change (Elem (dn "prop") [] (encode_calendar_req (q_cr q))) with (marshal_prop (encode_calendar_req (q_cr q))).
+    rewrite (client_prop_read _ Hcr). rewrite (r_filter_lex _ _ Hcf (lv_filter _)). reflexivity.
+  - apply andb_true_iff in Hv. destruct Hv as [Hv Hps]. apply andb_true_iff in Hv. destruct Hv as [Hcr Hne].
+    cbn [mg_cr mg_paths] in *.
+    unfold marshal_multiget, multiget_calendar. cbn [wm_prop wm_allprop wm_propname wm_hrefs opt_list flag_elem app].
+    destruct (mg_paths m) as [|p0 ps0] eqn:Em; [discriminate |].
+    change (marshal_href href_fmt) with (w_href href_fmt).
+    assert (Hk0 : forallb is_elem (marshal_prop (encode_calendar_req (mg_cr m)) :: map (w_href href_fmt) (p0 :: ps0)) = true).
+    { cbn [forallb marshal_prop is_elem andb]. now apply forallb_map_elem. }
+    destruct (all_elems_content _ Hk0) as [Hc He].
+    unfold rfc_read. rewrite Hc, He. cbn [negb].
+    change (name_eqb (cn "calendar-multiget") (cn "calendar-query")) with false.
+    rewrite name_eqb_refl. cbv iota. cbn [map].
+    rewrite (client_prop_read _ Hcr).
+    pose proof (map_opt_hrefs href_fmt href_parse _ Hps _ (Forall2_refl_map _ _ (lv_href href_fmt))) as Hm.
+    cbn [map] in Hm. rewrite Hm. reflexivity.
+Qed.
+
+(** * The oracle's verdict functions *)
+Lemma sb_refl {A} (dec : forall a b : A, {a = b} + {a <> b}) a : sb (dec a a) = true.
+Proof. destruct (dec a a); [reflexivity | contradiction]. Qed.
+
+(** every document the oracle accepts as "a variant of the RFC document of the
+    valid request r" is delivered as r, and read as r by the RFC reader *)
+Theorem server_in_domain_ok path r doc :
+  server_in_domain href_fmt href_parse r doc = true ->
+  handle_report href_parse path doc = Ok (backend_call_of path r) /\ rfc_read href_parse doc = Some r.
+Proof.
+  unfold server_in_domain. intros H. apply andb_true_iff in H. destruct H as [Hv Hb].
+  apply variant_b_lexvar in Hb. split.
+  - now apply (server_denotes href_fmt).
+  - now apply (rfc_read_lex href_fmt).
+Qed.
+
+(** model ⊑ specification, in the form of DESIGN.md section 5 *)
+Theorem server_model_meets_spec path r doc :
+  server_spec_ok href_fmt href_parse path r doc (handle_report href_parse path doc) = true.
+Proof.
+  unfold server_spec_ok. destruct (server_in_domain href_fmt href_parse r doc) eqn:E; [|reflexivity].
+  destruct (server_in_domain_ok path _ _ E) as [-> ->]. now rewrite !sb_refl.
+Qed.
+
+Theorem client_model_meets_spec path r :
+  client_spec_ok href_fmt href_parse path r (client_body href_fmt path r)
+                 (handle_report href_parse path (client_body href_fmt path r)) = true.
+Proof.
+  unfold client_spec_ok. destruct (expressible href_fmt href_parse r) eqn:E; [|reflexivity].
+  rewrite (client_conformant path _ E), (end_to_end path _ E). now rewrite !sb_refl.
 Qed.
 
 End Main.
